@@ -21,6 +21,43 @@ add("C12", "pbt", "differential testing against an independent exact implementat
     "Trusts refmodel::order as a reading of the OTP manual; order among distinct identifiers/funs not prescribed; int-vs-float map keys and arity-only fun differences accepted either way.",
     "DESIGN.md §7 C12")
 
+add("C03", "pbt", "property-based testing (proptest): independent encoder with per-node choice among all admissible encodings -> library decoder, value equality + trailing-data check",
+    "An independent ETF writer emits every generated value in a generated mix of all admissible forms (small/large, legacy, text float, four atom tags incl. Latin-1, STRING_EXT, split lists, legacy/NEW_PORT identifier tags, LOCAL_EXT, COMPRESSED stored and deflate) with and without junk appended; the library's decode, decode_with_trailing, decode_raw_term and decode_with_atom_cache must return exactly that value / report the trailing bytes.",
+    "Trusts refmodel's writer to emit only encodings erl_ext_dist permits (self-checked against refmodel's reader). Known open finding C03-F1 (maps with ==-equal keys).",
+    "DESIGN.md §7 C03")
+add("C05", "pbt", "exhaustive enumeration of all chunkings of short streams + property-based testing over random streams through a custom chunking/Pending AsyncRead and AsyncWrite",
+    "Every way of cutting short framed streams into reads (all 2^(n-1)), and random message sequences x chunk patterns x Pending patterns x EOF positions x over-cap lengths, driven by a manual poll loop; frames out must equal messages in, the streaming writer must equal the one-shot framer, over-cap lengths must be refused without a large allocation (scoped counting allocator).",
+    "No sockets or timers involved; the node's second copy of the read loop (receive_message_from_read_half) is exercised over TCP by C06/C19.",
+    "DESIGN.md §7 C05")
+add("C08", "pbt", "property-based testing over the tag x arity grid + table-driven differential against the protocol's control-message table (independent copy)",
+    "Tuples {Tag,e1..ek} for all tags 0..255 and arities 1..10 (biased to protocol tags at arity +-1, unlink ids over and beyond 64 bits, malformed inputs) must parse/serialise losslessly, to_term == into_term, survive the wire, and map to the variant/field the protocol table names; every table row built as a named variant must serialise to the protocol's tuple as seen by an independent reader.",
+    "Trusts refmodel::proto::CONTROL_TABLE as a copy of erl_dist_protocol. Known open finding C08-F1 (SPAWN_REQUEST arity).",
+    "DESIGN.md §7 C08")
+add("C09", "pbt", "exhaustive enumeration of all n! arrival orders (n<=5/7) x duplicates x out-of-range ids x all merges of two sequences + proptest histories, against a model assembler",
+    "Model-based: every call's return value and pending_count() after every step are compared with a model assembler over exhaustive small configurations and random histories with up to 4 interleaved sequences, 64 fragments, duplicates, bogus ids, u64 sequence ids and expiry.",
+    "Known open findings C09-F1 (ascending-id concatenation, pinned by the repo's tests) and C09-F2 (>100000 fragments never complete); every other clause is still decided on the full domain.",
+    "DESIGN.md §7 C09")
+add("C10", "pbt", "property-based testing: independent encoder places identifiers (plain / LOCAL_EXT, every inner tag) in every context; byte spans located by an independent reader; generated conversion sequences",
+    "Carrier terms with identifiers in every context are decoded, put through generated sequences of clone / owned->zero-copy->owned / wire trip / moves into containers, and re-encoded; identifier byte spans (found by an independent reader) must be byte-identical, and the same logical identifier in plain and LOCAL_EXT form (different hashes, differently spelled node atom) must be ==, hash alike and compare Equal.",
+    "Byte identity is required for LOCAL_EXT and for plain identifiers in the form the library reconstructs from fields; a plain identifier received in another equivalent tag must keep its logical fields.",
+    "DESIGN.md §7 C10")
+add("C13", "pbt", "differential testing owned vs zero-copy decoder over valid encodings, every truncation of a sample, mutations and raw bytes (proptest + exhaustive truncations)",
+    "For every generated input: zero-copy accepts => owned accepts and to_owned() is structurally identical; modern-tag-only well-formed inputs (judged by an independent tag walker) accepted by the owned decoder must be accepted by the zero-copy one; error offsets lie within the input.",
+    "Nesting depth of inputs is bounded (stack exhaustion is C02's subject).",
+    "DESIGN.md §7 C13")
+add("C14", "pbt", "exhaustive sweep of atom counts 0..258 x long-atom x payload + proptest; independent distribution-header reader and a conforming sender model with persistent 2048-slot cache",
+    "(a) The library's header-mode encodings for every atom count/parity/length class are read by an independent header reader and by the library's own reader; (b) sequences of messages from a conforming sender model (new entries, re-use across messages, overwrites, all segments, position != slot, inline and long atoms) must decode, with one AtomCache, to exactly what the sender meant.",
+    "Trusts refmodel::dist as a reading of the distribution header layout.",
+    "DESIGN.md §7 C14")
+add("C15", "pbt", "property-based round-trip testing over a family of 38 Rust types (serde derive + derive(ElixirStruct)), via term and via bytes",
+    "from_term(to_term(v)) == v and from_bytes(to_bytes(v)) == v (floats by bits) for generated values over full integer ranges, chars incl. non-BMP, strings, options, tuples, sequences, maps with several key types, all struct and enum shapes and nestings; the bytes must also be readable by an independent ETF reader.",
+    "Excludes the shapes the statement excludes (nested options, Option<()>, NaN).",
+    "DESIGN.md §7 C15")
+add("C20", "pbt", "property-based testing: i128 reference model for ranges; round trip (memory + wire) and wrong-shape mutation of every wrapper; proplist/map metamorphic relations",
+    "ElixirRange len/contains/iteration/size_hint against an exact i128 model at the i64 extremes under overflow checks; every Elixir wrapper over all field values its Rust type admits must round-trip in memory and through the wire, and must answer None (or the term's own values) for out-of-range fields, wrong types, missing keys and wrong struct tags; builders and proplist<->map conversions lose and invent nothing.",
+    "Embedded terms compared by denoted value after the wire; documented conventions of the wrappers (nil = absent, module prefix stripping) are respected by the generator.",
+    "DESIGN.md §7 C20")
+
 hooks_commits = []
 try:
     out = subprocess.run(["git", "-C", "/repo", "log", "--format=%H %s"], capture_output=True, text=True).stdout
